@@ -136,7 +136,9 @@ func (l *entryLog) AddEntries(entries []raftpb.Entry) error {
 			// from the entries after the one in which the entry was found.
 			if l.nextEntryIdx > lastIdx {
 				logger.GetLogger().Info("clearCurrentFile slots", zap.Int("startSlot", lastIdx), zap.Int("endSlot", l.nextEntryIdx))
-				_ = l.current.entry.WriteSlice(lastIdx, l.nextEntryIdx, int64(entrySize*lastIdx), make([]byte, entrySize*l.nextEntryIdx-entrySize*lastIdx), false, true)
+				// WriteSlice puts a unit32Size length prefix in front of the buffer: size the buffer so that
+				// prefix+zeros end exactly at the end of the last used slot (slot lastIdx is rewritten below).
+				_ = l.current.entry.WriteSlice(lastIdx, l.nextEntryIdx, int64(entrySize*lastIdx), make([]byte, entrySize*l.nextEntryIdx-entrySize*lastIdx-unit32Size), false, true)
 			}
 		} else {
 			// The existing entry was found in one of the previous file.
@@ -160,7 +162,9 @@ func (l *entryLog) AddEntries(entries []raftpb.Entry) error {
 			}
 			logger.GetLogger().Info("clearFirstFile slots", zap.Int("startSlot", lastIdx), zap.Int("endSlot", maxNumEntries),
 				zap.Int("fileLoc", firstIdx), zap.Int("fileNum", len(l.files)))
-			_ = l.current.entry.WriteSlice(lastIdx, maxNumEntries, int64(entrySize*lastIdx), make([]byte, logFileOffset-entrySize*lastIdx), false, true)
+			// WriteSlice puts a unit32Size length prefix in front of the buffer: without subtracting it the
+			// zero-fill ends at logFileOffset+unit32Size and wipes the length prefix of the first entry's data.
+			_ = l.current.entry.WriteSlice(lastIdx, maxNumEntries, int64(entrySize*lastIdx), make([]byte, logFileOffset-entrySize*lastIdx-unit32Size), false, true)
 			l.current.entry.setCurrent()
 			l.files = l.files[:firstIdx]
 			l.filesSync.Unlock()
